@@ -213,7 +213,7 @@ def handle_kani_failure(prop, o, by_name, crate_dir, features, timeout, res, rec
         fbs = [by_name[n] for n in o.get("fallback", "").split(",") if n and n in by_name]
         found = False
         for fb in fbs:
-            if fb.get("role") == "native_fallback":
+            if fb.get("role") in ("native_fallback", "native_bounded"):
                 if native_fallback_report(prop, fb, features, res, units,
                                           note="reached through failed plumbing obligation %s" % o["name"]):
                     found = True
